@@ -207,6 +207,10 @@ def run(S, tier, rep):
             if "key" in o:
                 o["key"] = o["key"].replace("C06.", "C07.conserve.")
             rep.obligations.append(o)
+    # "successive calls add up" holds only if the accumulate / reset option the user chose is the one the forcing object runs
+    from .c10 import wrappers_forward_options
+    wrappers_forward_options(S, rep, rule="C07.w")
+    rep.require_min("C07.w", 3)
     rep.require_min("C07.conserve", 20)
     rep.require_min("C07.window", 4)
     rep.require_min("C07.weights", 4)
